@@ -165,9 +165,9 @@ def gen_backlog(rng, root, files):
     f = rng.choice(files[:4])
     uri = lsp.file_uri(f)
     nm = os.path.basename(f)[:-4]
-    body, _, _ = g.gen_program(n_decls=rng.randint(60, 200), header="none")
+    body, _, _ = g.gen_program(n_decls=rng.randint(300, 700), header="none")
     msgs = [("notif", "textDocument/didChange", {"textDocument": {"uri": uri, "version": 2}, "contentChanges": [{"text": "class %s\n" % nm + body}]})]
-    for i in range(rng.randint(30, 90)):
+    for i in range(rng.randint(120, 300)):
         m = rng.choice(SUPPORTED_POS + ["textDocument/diagnostic", "textDocument/diagnostic"])
         pos = {"line": rng.randint(0, 200), "character": rng.choice([0, 2, 4, 7])}
         msgs.append(("req", m, {"textDocument": {"uri": uri}, "position": pos} if m in SUPPORTED_POS else {"textDocument": {"uri": uri}}))
@@ -199,7 +199,7 @@ def run_script(binary, seed):
             else:
                 s.notify(m, params)
                 items.append("N:%s" % m)
-            if rng.random() < 0.1:
+            if rng.random() < 0.1 and seed % 8 != 3:        # (a backlog script is sent without pauses)
                 time.sleep(0.01)
         sid = 1000
         resp, rc = s.shutdown_exit(sid, timeout=40)
